@@ -13,10 +13,12 @@ mkdir -p "$S/root"
 cp /verif/known-findings.jsonl "$S/root/"
 cp -r /verif/regressions "$S/root/"
 cp /verif/properties.jsonl "$S/root/" 2>/dev/null
-( cd "$S/harness" && CARGO_NET_OFFLINE=true cargo build --release --quiet 2> "$S/build.log" ) || { echo "== scratch $D: harness build failed"; tail -5 "$S/build.log"; /verif/tools/rmscratch.sh "$N"; exit 3; }
+# registry dependencies are shared between the evaluations of one lane (seed number mod 3); removed by the caller at the end
+num=$(echo "$D" | sed 's/[^0-9]//g'); TGT="/tmp/ev-target-$((10#$num % 3))"
+( cd "$S/harness" && CARGO_TARGET_DIR="$TGT" CARGO_NET_OFFLINE=true cargo build --release --quiet 2> "$S/build.log" && cp "$TGT/release/vcheck" "$S/vcheck" ) || { echo "== scratch $D: harness build failed"; tail -5 "$S/build.log"; /verif/tools/rmscratch.sh "$N"; exit 3; }
 for p in "$@"; do
   s=$(date +%s)
-  out=$(cd "$S/harness" && VERIF_ROOT="$S/root" VERIF_NO_EVIDENCE=1 VERIF_THREADS=${VERIF_THREADS:-6} target/release/vcheck $p --tier ${TIER:-quick} 2>&1); rc=$?
+  out=$(cd "$S/harness" && VERIF_ROOT="$S/root" VERIF_NO_EVIDENCE=1 VERIF_THREADS=${VERIF_THREADS:-6} "$S/vcheck" $p --tier ${TIER:-quick} 2>&1); rc=$?
   e=$(date +%s)
   line="== scratch $D $p: exit=$rc in $((e-s))s :: $(echo "$out" | grep -m1 -A1 '^VIOLATION' | tr '\n' ' ' | sed "s#$S/root#/verif#g" | cut -c1-240)"
   echo "$line"; echo "$line" >> "/verif/seeded/$D/eval.log"
